@@ -13,6 +13,17 @@
 (* are not UTF-8); they have no influence.  Loading either yields a        *)
 (* configuration or an error - there is no third outcome (a crash).        *)
 (*                                                                         *)
+(* A value may be ANY string of the option's type - also degenerate ones    *)
+(* made only of separators, blanks and empty elements (",", ";", "=", " ") *)
+(* for the list- and struct-valued options: each value either is refused  *)
+(* by validation (Bad) or not, the same from every source; there is no     *)
+(* value that makes Load crash.                                            *)
+(*                                                                         *)
+(* One process may load several times (tests, embedding, reload): every    *)
+(* Load starts from THE defaults and its result belongs to the caller - a  *)
+(* later Load neither sees what an earlier one was given nor changes what  *)
+(* an earlier one returned (Again, HistoryIndependent).                    *)
+(*                                                                         *)
 (* Load is modelled in the shape of config.Load: the command line is       *)
 (* parsed (which also yields the path of the properties file), the file is *)
 (* read, then for an option not yet set the environment is consulted with  *)
@@ -25,7 +36,9 @@ CONSTANTS
     Vals,        \* abstract values an option can be given (strings)
     Bad,         \* the values in Vals that validation rejects (type-correct, semantically invalid)
     Spellings,   \* letter-case spellings of an environment variable name
-    JunkClasses  \* classes of environment entries that assign no registered option
+    JunkClasses, \* classes of environment entries that assign no registered option
+    MaxLoads,    \* how many Loads one process performs (history part)
+    HistGivens   \* what the sources may say in the Loads of a history
 
 None    == "-"          \* "this source does not set the option" (a string, like the values)
 Default == "default"    \* the built-in default value
@@ -40,8 +53,9 @@ VARIABLES
     spell,    \* [EnvSources -> Spellings]     : how the variable name is spelled in the block
     junk,     \* SUBSET JunkClasses            : other entries present in the environment block
     fstate,   \* "absent" | "ok" | "junk"      : the properties file named by -cfg
-    pc, val, setby, result
-vars == <<given, spell, junk, fstate, pc, val, setby, result>>
+    pc, val, setby, result,
+    hist      \* the completed earlier Loads of this process: <<[given, value, result], ...>>
+vars == <<given, spell, junk, fstate, pc, val, setby, result, hist>>
 
 -----------------------------------------------------------------------------
 \* the declarative meaning
@@ -63,6 +77,7 @@ Init == /\ given \in [Sources -> Vals \cup {None}]
         /\ fstate \in {"absent", "ok", "junk"}
         /\ (given["file"] # None) => fstate = "ok"       \* a file that sets the option is a readable file
         /\ pc = "cmdline" /\ val = Default /\ setby = Default /\ result = None
+        /\ hist = <<>>
 
 Take(s) == /\ val' = given[s]
            /\ setby' = s
@@ -70,7 +85,7 @@ Take(s) == /\ val' = given[s]
 ParseCmdline == /\ pc = "cmdline"
                 /\ IF given["cmd"] # None THEN Take("cmd") ELSE UNCHANGED <<val, setby>>
                 /\ pc' = "readfile"
-                /\ UNCHANGED <<given, spell, junk, fstate, result>>
+                /\ UNCHANGED <<given, spell, junk, fstate, result, hist>>
 
 \* a junk file is either refused by the properties reader (error) or read as a file
 \* that says nothing about the option
@@ -78,7 +93,7 @@ ReadFile == /\ pc = "readfile"
             /\ \/ /\ fstate = "junk"
                   /\ result' = "error" /\ pc' = "done"
                \/ /\ pc' = "env" /\ UNCHANGED result
-            /\ UNCHANGED <<given, spell, junk, fstate, val, setby>>
+            /\ UNCHANGED <<given, spell, junk, fstate, val, setby, hist>>
 
 ApplyEnv == /\ pc = "env"
             /\ IF setby # Default THEN UNCHANGED <<val, setby>>
@@ -86,20 +101,33 @@ ApplyEnv == /\ pc = "env"
                ELSE IF EnvHas("env")  THEN val' = EnvValue("env")  /\ setby' = "env"
                ELSE UNCHANGED <<val, setby>>
             /\ pc' = "file"
-            /\ UNCHANGED <<given, spell, junk, fstate, result>>
+            /\ UNCHANGED <<given, spell, junk, fstate, result, hist>>
 
 ApplyFile == /\ pc = "file"
              /\ IF setby = Default /\ given["file"] # None THEN Take("file") ELSE UNCHANGED <<val, setby>>
              /\ pc' = "validate"
-             /\ UNCHANGED <<given, spell, junk, fstate, result>>
+             /\ UNCHANGED <<given, spell, junk, fstate, result, hist>>
 
 Validate == /\ pc = "validate"
             /\ result' = IF val \in Bad THEN "error" ELSE "cfg"
             /\ pc' = "done"
-            /\ UNCHANGED <<given, spell, junk, fstate, val, setby>>
+            /\ UNCHANGED <<given, spell, junk, fstate, val, setby, hist>>
 
 Next == ParseCmdline \/ ReadFile \/ ApplyEnv \/ ApplyFile \/ Validate
 Spec == Init /\ [][Next]_vars /\ WF_vars(Next)
+
+\* the same process loads again: the completed Load is filed, the next one starts from the
+\* default whatever the earlier ones were given
+Again(g) == /\ pc = "done" /\ Len(hist) < MaxLoads - 1
+            /\ hist' = Append(hist, [given |-> given, value |-> val, result |-> result])
+            /\ given' = g
+            /\ fstate' = IF g["file"] # None THEN "ok" ELSE "absent"
+            /\ pc' = "cmdline" /\ val' = Default /\ setby' = Default /\ result' = None
+            /\ UNCHANGED <<spell, junk>>
+HistInit == /\ Init /\ given \in HistGivens /\ junk = {} /\ fstate = (IF given["file"] # None THEN "ok" ELSE "absent")
+            /\ \A s \in EnvSources : spell[s] = Canonical
+HistNext == Next \/ \E g \in HistGivens : Again(g)
+HistSpec == HistInit /\ [][HistNext]_vars
 
 -----------------------------------------------------------------------------
 TypeOK == /\ pc \in {"cmdline", "readfile", "env", "file", "validate", "done"}
@@ -119,5 +147,10 @@ SingleSource == (pc = "done" /\ result = "cfg") =>
                    \A s \in Sources : (\A t \in Sources \ {s} : given[t] = None) /\ given[s] # None => val = given[s]
 PairPrecedence == (pc = "done" /\ result = "cfg") =>
                    \A i, j \in DOMAIN Order : (i < j /\ given[Order[i]] # None /\ given[Order[j]] # None) => setby # Order[j]
+\* what an earlier Load returned is a function of what IT was given, and stays so
+HistoryIndependent == \A i \in DOMAIN hist :
+                         /\ hist[i].result \in {"cfg", "error"}
+                         /\ hist[i].result = "cfg" => (hist[i].value = Effective(hist[i].given) /\ hist[i].value \notin Bad)
+                         /\ hist[i].result = "error" => Effective(hist[i].given) \in Bad
 Terminates == <>(pc = "done")
 =============================================================================
